@@ -1,3 +1,4 @@
+\* defect variant: the serving loop does not return at end-of-stream; NoStuckChild / LaterChildCompletes must be violated
 SPECIFICATION Spec
 CONSTANTS
   Children = {1, 2}
